@@ -48,7 +48,7 @@ Proof. intros. unfold ser_frame. cbn [aframe_parts]. unfold ser_frame_raw. rewri
 
 Lemma read_cont : forall sid eh f mx pre rest,
   sid_ok sid -> len f < 16777216 -> len f <= mx ->
-  read_raw true sid mx (pre ++ ser_frame (ACont sid eh f) ++ rest) (len pre) =
+  read_raw psw_ok sid mx (pre ++ ser_frame (ACont sid eh f) ++ rest) (len pre) =
   WFrame (frame_of (ACont sid eh f)) (9 + len f) (if eh then 0 else sid).
 Proof.
   intros sid eh f mx pre rest Hs Hl Hm.
@@ -68,7 +68,7 @@ Theorem collect_ser : forall cs sid mx drains fuel pre rest off msize acc,
   cs <> [] -> sid_ok sid ->
   Forall (fun f => len f < 16777216 /\ len f <= mx) cs ->
   (length cs <= fuel)%nat -> len pre = off + msize ->
-  collect true true drains fuel sid mx (pre ++ ser_conts sid cs ++ rest) off msize acc =
+  collect psw_ok true drains fuel sid mx (pre ++ ser_conts sid cs ++ rest) off msize acc =
   COk (acc ++ cs) (msize + len (ser_conts sid cs)).
 Proof.
   induction cs as [|f cs IH]; intros sid mx drains fuel pre rest off msize acc Hne Hs Hall Hfuel Hpre; [contradiction|].
@@ -196,7 +196,7 @@ Theorem headers_block_roundtrip : forall st sid es pr pad rs t' fs rest sk',
   sink_run (mkSink (fs_maxlist st) false false false []) fs = Some sk' ->
   check_pseudos fs [] false false = true ->
   forall drains,
-  read_frame_gen true true drains st (ser_frame a ++ rest) =
+  read_frame_gen psw_ok true drains st (ser_frame a ++ rest) =
   ROk (mkFrame (f_hdr (frame_of a)) (BMeta pr fs false)) (len (ser_frame a))
       (mkFs 0 (fs_max st) (fs_maxlist st) (mkD t' (fs_maxlist st) true true [])).
 Proof.
